@@ -2465,6 +2465,12 @@ func (a *Association) handleData(chunkPayload *chunkPayloadData) []*packet {
 	if state == shutdownSent {
 		sackNow = true
 	}
+	if !canPush {
+		// A duplicate (or out-of-window) DATA chunk: RFC 9260 sec 6.2 requires
+		// the SACK to be sent at once, the peer is retransmitting because an
+		// earlier acknowledgement did not reach it.
+		sackNow = true
+	}
 
 	return a.handlePeerLastTSNAndAcknowledgement(sackNow)
 }
